@@ -90,6 +90,21 @@ def run(ctx):
     rep.rule("LEN-2", "body and suffix are parsed from the declared-length window; serialize declares what it wrote", floor=4)
     rep.rule("LEN-3", "TLV set accepted only if fully consumed by whole even-length TLVs", floor=2)
     rep.rule("ENUM-1", "enum <-> octet tables are mutually inverse and match the spec code points", floor=20)
+    rep.rule("LEN-4", "the TLV-set validator and the TLV iterator agree on the minimum size of the last element", floor=1)
+    try:
+        from rules.c15 import min_len_literal, min_len_iter
+        td_ = prog.one(name="deserialize", self_name="TlvSet", crate="statime-lib")
+        it_ = prog.one(name="next", self_name="TlvSetIterator", crate="statime-lib")
+        a_, b_ = min_len_literal(prog, td_, True), min_len_iter(prog, it_)
+        if a_ == b_:
+            rep.ok("LEN-4", td_.key, "validator/iterator minimum", detail={"deserialize": a_, "iterator": b_}, where=td_.loc())
+        else:
+            rep.violation("LEN-4", td_.key, "validator/iterator minimum",
+                          "TlvSet::deserialize accepts a trailing element of %s bytes but TlvSetIterator::next stops at %s: a "
+                          "message that decodes successfully loses (release) or panics on (debug) its last TLV when iterated, "
+                          "and does not re-encode to its input" % (a_, b_), where=td_.loc())
+    except AnchorMissing as e:
+        rep.anchor_missing("LEN-4", str(e))
 
     # ---------------- LAY-1/2/3
     for tyname, ent in spec.items():
